@@ -229,6 +229,21 @@ def fromSdmx (s : Str) : R Period := do
   | some f => fromSdmxAs f s
   | none => throw .badInput
 
+/-- `periods_from_sdmx_strings(strings, frequency=None)`: the frequency is detected from the FIRST string when it is not
+given, and every string is then parsed by that frequency's class, one by one, in the order given (no assumption that the
+strings form a run of consecutive periods). -/
+def periodsFromSdmx (f? : Option Freq) (l : List Str) : R (List Period) :=
+  match l with
+  | [] => pure []
+  | s0 :: _ => do
+    let f ← match f? with
+      | some f => pure f
+      | none => do
+        match ← detectFreq s0 with
+        | some f => pure f
+        | none => throw .badInput
+    l.mapM (fromSdmxAs f)
+
 /-- `to_iso_string(position=…)` -/
 def toIso (p : Period) (pos : Pos) : R Str := do
   let (y, m, d) ← toYmd p pos
